@@ -107,13 +107,22 @@ func ExtractFieldMap(f *Func, in types.Object) *FieldMap {
 	if n := sig.Results().Len(); n > 1 {
 		hasErr = types.Identical(sig.Results().At(n-1).Type(), types.Universe.Lookup("error").Type())
 	}
-	// success returns
+	// success returns; a naked return of a function with named results
+	// returns the named result variable
+	var named types.Object
+	if f.Type.Results != nil && len(f.Type.Results.List) > 0 && len(f.Type.Results.List[0].Names) > 0 {
+		named = info.Defs[f.Type.Results.List[0].Names[0]]
+	}
 	var rets []*ast.ReturnStmt
 	ast.Inspect(f.Body, func(x ast.Node) bool {
 		switch y := x.(type) {
 		case *ast.FuncLit:
 			return false
 		case *ast.ReturnStmt:
+			if len(y.Results) == 0 && named != nil {
+				rets = append(rets, y)
+				return true
+			}
 			if len(y.Results) != sig.Results().Len() {
 				fm.Problems = append(fm.Problems, "return with implicit or multi-value results at "+f.At(y))
 				return true
@@ -130,22 +139,38 @@ func ExtractFieldMap(f *Func, in types.Object) *FieldMap {
 		return fm
 	}
 	tr := &fmTracer{fm: fm, info: info, memo: map[types.Object]*fmProv{}, busy: map[types.Object]bool{}}
-	res := ast.Unparen(rets[0].Results[0])
 	var outVar types.Object
-	lit := fmAsLit(res)
-	if lit == nil {
-		if id, ok := res.(*ast.Ident); ok {
-			outVar = ObjOf(info, id)
-			lit = tr.singleLitDef(outVar)
+	var lit *ast.CompositeLit
+	if len(rets[0].Results) == 0 {
+		// the named result starts as the zero value and is completed field by field
+		outVar = named
+		if tr.countDefs(named) != 0 {
+			fm.Problems = append(fm.Problems, "the named result is assigned as a whole")
+			return fm
 		}
-	}
-	if lit == nil {
-		fm.Problems = append(fm.Problems, "the successful result is not a composite literal (or a variable initialised with one)")
-		return fm
-	}
-	if n := fmNamedStruct(info.TypeOf(lit)); n == nil || n.Obj() != fm.OutType.Obj() {
-		fm.Problems = append(fm.Problems, "literal type differs from the result type")
-		return fm
+		lit = &ast.CompositeLit{Lbrace: f.Type.Results.Pos(), Rbrace: f.Type.Results.Pos()}
+	} else {
+		res := ast.Unparen(rets[0].Results[0])
+		lit = fmAsLit(res)
+		if lit == nil {
+			if id, ok := res.(*ast.Ident); ok {
+				outVar = ObjOf(info, id)
+				lit = tr.singleLitDef(outVar)
+				if lit == nil && outVar != nil && outVar == named && tr.countDefs(named) == 0 {
+					lit = &ast.CompositeLit{Lbrace: f.Type.Results.Pos(), Rbrace: f.Type.Results.Pos()}
+				}
+			}
+		}
+		if lit == nil {
+			fm.Problems = append(fm.Problems, "the successful result is not a composite literal (or a variable initialised with one)")
+			return fm
+		}
+		if lit.Type != nil || len(lit.Elts) > 0 {
+			if n := fmNamedStruct(info.TypeOf(lit)); n == nil || n.Obj() != fm.OutType.Obj() {
+				fm.Problems = append(fm.Problems, "literal type differs from the result type")
+				return fm
+			}
+		}
 	}
 	fm.Lit = lit
 	tr.out = outVar
@@ -224,6 +249,8 @@ func ExtractFieldMap(f *Func, in types.Object) *FieldMap {
 				}
 			case *ast.ValueSpec:
 				return true
+			case *ast.Field:
+				return true // declaration of a named result
 			case *ast.ReturnStmt:
 				return true
 			case *ast.SelectorExpr:
@@ -393,6 +420,7 @@ func fmMergeProv(ps ...*fmProv) *fmProv {
 
 type fmTracer struct {
 	fm       *FieldMap
+	pseudo   *types.Var   // non-struct input: the parameter itself stands for its only "field"
 	out      types.Object // the result variable (nil when the literal is returned directly)
 	info     *types.Info
 	memo     map[types.Object]*fmProv
@@ -463,6 +491,9 @@ func (tr *fmTracer) prov(e ast.Expr) *fmProv {
 			return fmEmptyProv()
 		}
 		if o == tr.fm.In {
+			if tr.pseudo != nil {
+				return &fmProv{fields: map[*types.Var]bool{tr.pseudo: true}}
+			}
 			return &fmProv{fields: map[*types.Var]bool{}, whole: true}
 		}
 		if v, ok := o.(*types.Var); ok && !v.IsField() && v.Pkg() != nil && v.Parent() != v.Pkg().Scope() {
@@ -705,4 +736,73 @@ func loopBodyNote(loop *ast.RangeStmt) string {
 		return true
 	})
 	return note
+}
+
+// countDefs counts whole-variable assignments to v in the function.
+func (tr *fmTracer) countDefs(v types.Object) int {
+	n := 0
+	ast.Inspect(tr.fm.F.Body, func(x ast.Node) bool {
+		if as, ok := x.(*ast.AssignStmt); ok {
+			for _, l := range as.Lhs {
+				if id, ok := ast.Unparen(l).(*ast.Ident); ok && ObjOf(tr.info, id) == v {
+					n++
+				}
+			}
+		}
+		return true
+	})
+	return n
+}
+
+// ExtractParamChain traces the first result of the single successful return
+// of f back to its (non-struct) parameter in: the transform steps, innermost
+// first, as ExtractFieldMap would record them for a field (a helper
+// `func conv(xs []A) ([]B, error)` yields elem, call, store).  why != ""
+// when the shape is not understood.
+func ExtractParamChain(f *Func, in types.Object) (steps []FieldStep, why string) {
+	info := f.Info()
+	sig := f.Signature()
+	pv, _ := in.(*types.Var)
+	if sig == nil || pv == nil || sig.Results().Len() == 0 {
+		return nil, "no result"
+	}
+	hasErr := false
+	if n := sig.Results().Len(); n > 1 {
+		hasErr = types.Identical(sig.Results().At(n-1).Type(), types.Universe.Lookup("error").Type())
+	}
+	var rets []*ast.ReturnStmt
+	bad := ""
+	ast.Inspect(f.Body, func(x ast.Node) bool {
+		switch y := x.(type) {
+		case *ast.FuncLit:
+			return false
+		case *ast.ReturnStmt:
+			if len(y.Results) != sig.Results().Len() {
+				bad = "return with implicit or multi-value results at " + f.At(y)
+				return true
+			}
+			if hasErr && !IsNilIdent(info, y.Results[len(y.Results)-1]) {
+				return true
+			}
+			rets = append(rets, y)
+		}
+		return true
+	})
+	if bad != "" {
+		return nil, bad
+	}
+	if len(rets) != 1 {
+		return nil, fmt.Sprintf("%d successful return statements (exactly one is understood)", len(rets))
+	}
+	fm := &FieldMap{F: f, In: in, Entries: map[*types.Var]*FieldSrc{}}
+	tr := &fmTracer{fm: fm, pseudo: pv, info: info, memo: map[types.Object]*fmProv{}, busy: map[types.Object]bool{}}
+	p := tr.prov(rets[0].Results[0])
+	if len(tr.problems) > 0 {
+		return nil, tr.problems[0]
+	}
+	fl := p.fieldList()
+	if len(fl) != 1 || fl[0] != pv {
+		return nil, "the result does not derive from the parameter alone"
+	}
+	return p.steps, ""
 }
